@@ -113,3 +113,94 @@ def ym_pair(rep, prog, rule="YM-PAIR", crate="jiff", floor=12):
                     ", ".join(sorted(o if isinstance(o, str) else show(o, maxd=3)[:60] for o in om))), loc)
     rep.floor(rule + " decided call sites", decided, floor)
     return n, decided
+
+
+# ------------------------------------------------------------------------------------------------------------------
+YEAR_FACTS = ("weeks_in_year", "days_in_year", "in_long_year", "in_leap_year", "days_in_month", "days_in_month_ranged", "last_of_year", "last_of_month")
+
+
+def _year_of(t, depth=0):
+    """(date term, shift) when t is `year(D) + shift` (through value-preserving wrappers); None otherwise"""
+    if not isinstance(t, tuple) or not t or depth > 12:
+        return None
+    k = t[0]
+    if k == "call":
+        last = t[1].rsplit("::", 1)[-1]
+        if last in _YEAR and len(t[2]) == 1:
+            return (t[2][0], 0)
+        if last in _WRAP and t[2]:
+            return _year_of(t[2][0], depth + 1)
+        m = re.search(r"ops::(Add|Sub)<.*>>::(add|sub)$", t[1])
+        if m and len(t[2]) == 2:
+            a, c = _year_of(t[2][0], depth + 1), _const_of(t[2][1])
+            if a is not None and c is not None:
+                return (a[0], a[1] + (c if m.group(1) == "Add" else -c))
+        return None
+    if k == "field":
+        if t[2] == "year":
+            return (t[1], 0)
+        if t[2] in ("val", "0"):
+            return _year_of(t[1], depth + 1)
+        return None
+    if k in ("try", "cast", "variant"):
+        return _year_of(t[1], depth + 1)
+    if k == "bin" and t[1] in ("Add", "Sub", "AddWithOverflow", "SubWithOverflow", "AddUnchecked", "SubUnchecked"):
+        a, c = _year_of(t[2], depth + 1), _const_of(t[3])
+        if a is not None and c is not None:
+            return (a[0], a[1] + (c if t[1].startswith("Add") else -c))
+    return None
+
+
+def _const_of(t):
+    while isinstance(t, tuple) and t and (t[0] == "cast" or (t[0] == "call" and t[1].rsplit("::", 1)[-1] in ("C", "rfrom", "rinto", "into", "from") and len(t[2]) == 1)):
+        t = t[1] if t[0] == "cast" else t[2][0]
+    if isinstance(t, tuple) and t and t[0] == "const" and isinstance(t[1], int):
+        return t[1]
+    return None
+
+
+def _scan_year_fact(prog, crate):
+    """yield (fn, call, loc, fact name, date term, shift) for every call that pairs year(D)+shift (shift != 0) with a per-year fact of D"""
+    for name, g in sorted(prog.fns.items()):
+        if not name.startswith(crate + "::"):
+            continue
+        T = None
+        for bi, t in mir.iter_calls(g):
+            nargs = len(t.get("args", []))
+            if nargs < 2:
+                continue
+            T = T or Terms(g)
+            args = [T.at_call(bi, t, i) for i in range(nargs)]
+            years = [(i, _year_of(a)) for i, a in enumerate(args)]
+            years = [(i, y) for i, y in years if y is not None]
+            if not years:
+                continue
+            for j, a in enumerate(args):
+                for x in walk(a):
+                    if isinstance(x, tuple) and x and x[0] == "call" and x[1].rsplit("::", 1)[-1] in YEAR_FACTS and len(x[2]) >= 1:
+                        for i, (d, shift) in years:
+                            if i != j and x[2][0] == d:
+                                yield (name, t, "%s:%s" % (t["span"]["file"], t["span"]["line"]), x[1].rsplit("::", 1)[-1], d, shift)
+
+
+def year_fact(rep, prog, rule="YEAR-FACT", crate="jiff"):
+    from . import facts
+    rep.rule(rule, "no call passes `year(D) + k` (k != 0) together with a per-year fact of the same D (weeks_in_year, days_in_year, "
+                   "in_long_year, in_leap_year, days_in_month): the week or day count of one year does not describe its neighbour "
+                   "(2026-W01-1.yesterday() built from weeks_in_year(2026) names a week 53 that 2025 does not have)")
+    ctl = facts.load_controls()
+    hits = {n.rsplit("::", 1)[-1] for (n, _t, _l, _f, _d, s) in _scan_year_fact(ctl, "controls") if s != 0}
+    if "bad_year_fact" in hits and "good_year_fact" not in hits:
+        rep.ok(rule, "_controls", how="reports bad_year_fact, accepts good_year_fact (fixtures/controls)")
+    else:
+        rep.violation(rule, "_controls", "the matcher no longer separates the control functions: reported %s" % sorted(hits), "fixtures/controls/src/lib.rs")
+    n = 0
+    for (name, t, loc, fact, d, shift) in _scan_year_fact(prog, crate):
+        n += 1
+        key = "%s | %s with year%+d" % (name, fact, shift)
+        if shift != 0:
+            rep.violation(rule, key, "%s(%s) is passed to %s together with the year of the same value shifted by %+d" % (
+                fact, show(d, maxd=2)[:40], t.get("path", "").rsplit("::", 1)[-1], shift), loc)
+        else:
+            rep.ok(rule, key, how="the fact and the year belong to the same value", loc=loc)
+    return n
